@@ -12,12 +12,17 @@ check('C19', title='Inbound messages reach the application only when in sequence
            '{absent, N, Y with Orig<=Sending, Y with Orig>Sending, Y without Orig} x CompIDs {right, wrong sender, wrong target} x {intact, a header value containing the text 34=7 '
            'before MsgSeqNum, bad checksum, missing mandatory field, unknown MsgType}. Oracle per probe: delivery iff decodable, CompIDs acceptable and (n=e or n<e with PossDup and Orig<=Sending); '
            'n>e => no delivery and a ResendRequest from e (or one already outstanding); n<e without PossDup or wrong CompID under enforcement => Logout on the wire, session ended, no delivery; '
-           'undecodable => no delivery and a Reject (or forced logout).',
+           'undecodable => no delivery and a Reject (or forced logout). Part two-sessions-inbound: two Session objects in one process, one thread each handing in-sequence application messages to Session::process, '
+           'every schedule with at most 3 preemptions (scheduling points at every lock operation of the library): each message reaches its own session\'s application exactly once and in order.',
       level_note='n is the MsgSeqNum field of the probe. PossDup=Y without OrigSendingTime is left unconstrained (the property is silent). Bounded by prefix depth.',
       rule='history = prefix events from {in-hb, in-app, in-app-ahead, idle-tick(40 s), send, in-gapfill} up to the depth bound, optionally followed by one probe; distinct = new canonical session state '
            '(state, both numbers, outstanding resend, deliveries, idle seconds); probes are judged in every distinct state',
       assumptions=_ASSUME,
-      parts=[dict(name='bfs', harness='session_in', variant='san', quick=dict(args=['depth=3'], deadline=100), thorough=dict(args=['depth=5'], deadline=800))])
+      parts=[dict(name='bfs', harness='session_in', variant='san', quick=dict(args=['depth=3'], deadline=100), thorough=dict(args=['depth=5'], deadline=800)),
+             # inbound in-sequence application messages handed to two sessions (one reader thread each, each also sending) under the schedule search of C25:
+             # every message reaches its own session's application exactly once, in order, whatever the interleaving
+             dict(name='two-sessions-inbound', harness='c25_senders', variant='schedp', inproc=True,
+                  quick=dict(args=['pm=t2', 'ops=aa,aa', 'pk=m', 'bound=3'], deadline=60), thorough=dict(args=['pm=t2', 'ops=asa,aas', 'pk=m', 'bound=3'], deadline=600))])
 
 check('C20', title='Sequence gaps are recovered with a conformant counterparty',
       level='model_checking', engine='sim+bfs+peer-model',
